@@ -208,13 +208,16 @@ class Harness:
                     inside = os.path.isabs(p) and os.path.normpath(p).startswith(str(self.work) + os.sep)
                     state["errfile"] = errfile if inside else (None if not os.path.exists(p) else "?")
                     if inside:
-                        if errfile is None:
-                            if os.path.exists(p):
-                                os.unlink(p)
-                        else:
-                            os.makedirs(os.path.dirname(p), exist_ok=True)
-                            with open(p, "w") as f:
-                                f.write("\n".join(errfile))
+                        try:
+                            if errfile is None:
+                                if os.path.exists(p):
+                                    os.unlink(p)
+                            else:
+                                os.makedirs(os.path.dirname(p), exist_ok=True)
+                                with open(p, "w") as f:
+                                    f.write("\n".join(errfile))
+                        except OSError:
+                            state["errfile"] = "?"      # the harness cannot stage this path (e.g. a file where a directory is needed)
                 return (0, sa.pop(0), "")
             return (0, "", "")
 
@@ -232,7 +235,7 @@ class Harness:
                            else ["no_jobid"] if "Could not extract job ID" in m else ["other", "RuntimeError: " + m[:100]])
             except AttributeError as e:
                 verdict = ["unparsable"] if "'group'" in str(e) else ["crash"] if "'replace'" in str(e) else ["other", "AttributeError: %s" % e]
-            except (FileNotFoundError, IndexError):
+            except (OSError, IndexError):
                 verdict = ["errfile_unreadable"]
             except Exception as e:
                 verdict = ["failed", str(e)] if type(e) is Exception else ["other", "%s: %s" % (type(e).__name__, str(e)[:100])]
@@ -420,7 +423,7 @@ def slurm_cases(ctx, tmp):
     maxlen = 4 if ctx.tier == "thorough" else 3
     seqs = [list(s) for n in range(0, maxlen + 1) for s in itertools.product(ALPHABET, repeat=n)]
     exhaustive_n = len(seqs)
-    for _ in range(ctx.budget(150, 1500)):
+    for _ in range(ctx.budget(150, 1000)):
         seqs.append([rng.choice(ALPHABET + MORE) for _ in range(rng.randrange(1, 8))])
     cases = []
     for c in ctx.corpus():
@@ -434,7 +437,7 @@ def slurm_cases(ctx, tmp):
                           errfile=rng.choice(ERRFILES)))
     frag = ["-J", "--job-name=", "-o", "--output=", "-e", "--error=", " ", "  ", "x", "a-e", "my-J", "=", "--no-requeue", "-e ", "-J x",
             os.path.join(tmp, "r-%j.err"), "\t", "--x--error=y", "-N 2"]
-    for _ in range(ctx.budget(80, 800)):
+    for _ in range(ctx.budget(80, 500)):
         args = "".join(rng.choice(frag) for _ in range(rng.randrange(1, 8))).strip()
         cases.append(dict(items=None, args=args, sbatch=[0, "Submitted batch job 123\n"],
                           reports=[list(rng.choice(ALPHABET)) for _ in range(rng.randrange(0, 4))], errfile=rng.choice(ERRFILES)))
@@ -476,6 +479,9 @@ def run(ctx):
                 dist["user_option_cases"] += any(i[0] == "opt" for i in case["items"])
                 dist["unrecognised_form_cases"] += unrecognised(case["items"])
                 dist["no_requeue_cases"] += any(i == ["other", "--no-requeue"] for i in case["items"])
+            if obs["errfile"] == "?":
+                dist["skipped_unstageable_error_file"] = dist.get("skipped_unstageable_error_file", 0) + 1
+                continue            # the worker's error file cannot be staged by the harness: not a case
             v = enc_verdict(obs["verdict"])
             problems = []
             if v is None:
@@ -492,8 +498,6 @@ def run(ctx):
             if problems:
                 out.failures.append(Failure(case=case, observed=obs, expected="; ".join(problems), kind="tie", note="scheduler commands"))
                 continue
-            if obs["errfile"] == "?":
-                continue            # the worker's error file is an existing file outside the temp dir: not a case
             case = dict(case, errfile=obs["errfile"])
             toks = "None" if case["items"] is None else "(Some %s)" % coqio.lst([coqio.string(t) for t in case["args"].split()])
             ef = "None" if obs["errpath"] is None else "(Some %s)" % coqio.string(obs["errpath"])
@@ -537,7 +541,7 @@ def run(ctx):
         # ---- SGE
         qenc, qkeep = [], []
         rng = ctx.rng
-        for _ in range(ctx.budget(150, 1500)):
+        for _ in range(ctx.budget(150, 1000)):
             a1, a2 = gen_qans(rng), gen_qans(rng)
             verdict, ncalls = h.run_sge_verify(dict(a1), dict(a2))
             exp_calls = 2 if not a1["lines"] else 1
